@@ -69,6 +69,8 @@ type dEvent struct {
 	Class     string  `json:"class,omitempty"`
 }
 
+var c07Hook func(exit int, nonce uint16, c []uint8, z *[dilithium.L]dilithium.VerifPoly, w0, h *[dilithium.K]dilithium.VerifPoly, hints uint)
+
 func fix(e dEvent) dEvent {
 	if e.Buf == nil {
 		e.Buf = []int{}
@@ -216,6 +218,7 @@ func c07(r *rand.Rand, tier string, tr *trace.Buf, extra map[string]interface{})
 	}
 	extra["boundary_hits"] = bhits
 	extra["loop_exits"] = exits
+	c07Hook = dilithium.VerifSignHook
 	dilithium.VerifSignHook = nil
 	// samplers on crafted streams: acceptance boundaries t = q-1 / q / q+1, top bit ignored, nibbles 14 / 15
 	q := uint32(8380417)
@@ -419,7 +422,9 @@ func c07(r *rand.Rand, tier string, tr *trace.Buf, extra map[string]interface{})
 				r.Read(msg)
 				light = false
 				its = nil
+				dilithium.VerifSignHook = c07Hook
 				sig, err := d.Sign(msg)
+				dilithium.VerifSignHook = nil
 				if err != nil {
 					panic(err)
 				}
